@@ -43,6 +43,32 @@ def check_config(cfg, w, rep):
     rep.floor("listing_fns", len(ls), 1, cfg)
     for lf in ls:
         check_ls(cfg, w, rep, lf)
+    # (a') the public listing entry points hand out the index listing as it is: a wrapper that filters, maps or truncates
+    #      the iterator lists something else than the entries a lookup finds
+    ls_paths = {lf.path for lf in ls}
+    n_wr = 0
+    for lf in w.public_fns():
+        if lf.path in ls_paths:
+            continue
+        calls = [(b, blk, t, g) for b, blk, t, g in prog.local_calls(lf) if g.path in ls_paths]
+        if not calls:
+            continue
+        n_wr += 1
+        key = fn_key(lf)
+        rt = w.sym.of_place(lf.body, 0, ())
+        ok = rt[0] == "call" and rt[1] in ls_paths and not rt[3] and len(rt[2]) == 1 and rt[2][0][0] in ("param", "call") and \
+            not any(st[0] == "call" and st[1].startswith("std::iter::") for st in walk(rt))
+        if ok and rt[2][0][0] == "call":
+            # as_ref() / borrow of the cache parameter only
+            a = rt[2][0]
+            ok = a[1].endswith("::as_ref") and len(a[2]) == 1 and a[2][0][0] == "param"
+        if ok:
+            rep.ob(cfg, "a-wrapper", key, "`%s` returns the index listing of its cache parameter unadapted" % short(lf.path))
+        else:
+            rep.violation("a-wrapper:%s" % key,
+                          "public listing `%s` does not return the index listing as it is (%s): entries could be dropped, changed or added "
+                          "relative to what lookups find" % (short(lf.path), term_str(rt)[:140]), loc=lf.body.loc(), config=cfg, rule="a-same-stream")
+    rep.floor("listing_wrappers", n_wr, 1, cfg)
     # (c) de-duplication key is the entry key only
     for rt in sorted(R.record_types):
         check_eq_hash(cfg, w, rep, rt)
@@ -56,6 +82,10 @@ def check_ls(cfg, w, rep, lf):
     for e in w.own_effects(lf):
         if e.kind == "ReadDir":
             c = e.classes.get("path")
+            if not R.bucket_path:
+                rep.violation("anchor:bucket_path", "ANCHOR-MISSING: no function has the bucket-path role (the listing's walk root cannot be compared with it)",
+                              config=cfg, rule="anchor-floor")
+                continue
             bp = prog.fns[R.bucket_path[0]]
             bt = w.sym.of_place(bp.body, 0, ())
             root_seg = None
@@ -102,6 +132,21 @@ def check_ls(cfg, w, rep, lf):
         rep.violation("b-idiom:%s" % key, "UNRECOGNISED-IDIOM: `%s` does not return a pipeline over the bucket reader's records" % short(lf.path),
                       loc=pb.loc(), config=cfg, rule="b-dedup")
         return
+    # the pipeline may sit in ONE private helper that is handed the reader's records: then it is judged there, with the
+    # helper's records parameter standing for the reader's result
+    helper = None
+    if pipe[0] == "call" and pipe[1] in prog.fns and pipe[1] not in R.bucket_readers and not prog.fns[pipe[1]].outer.reachable:
+        h = prog.fns[pipe[1]]
+        ri = [i for i, a in enumerate(pipe[2]) if a[0] == "call" and a[1] in R.bucket_readers]
+        if len(ri) == 1 and not pipe[3]:
+            helper = (h, ri[0], pipe[2][ri[0]])
+            pb = h.body
+            pipe = w.sym.of_place(h.body, 0, ())
+            for blk_, t_ in h.body.calls():
+                if t_.callee is not None and t_.args and inplace_call(t_.callee.path) and \
+                        w.sym.of_operand(h.body, t_.args[0]) == ("param", h.path, ri[0], ()):
+                    rep.violation("b-inplace:%s" % key, "listing helper `%s` touches the record vector (`%s`) before the pipeline" % (
+                        short(h.path), t_.callee.path.rsplit("::", 1)[-1]), loc=span_str(t_.span), config=cfg, rule="b-dedup")
     stages = []
     cur = pipe
     while cur[0] == "call":
@@ -110,6 +155,11 @@ def check_ls(cfg, w, rep, lf):
         if name in R.bucket_readers or not cur[2]:
             break
         cur = cur[2][0]
+    if helper is not None:
+        if cur == ("param", helper[0].path, helper[1], ()):
+            stages.append((helper[2][1], helper[2]))     # the records parameter stands for the reader call made by the caller
+        if stages and stages[-2:-1] and stages[-2][0].endswith("into_iter") and "HashSet" not in stages[-2][0] and "HashMap" not in stages[-2][0]:
+            del stages[-2]                               # Vec::into_iter on the parameter is an identity adaptor
     names = [re.sub(r"^.*::", "", n.split(" as ")[-1]) if not n.startswith("<") else ("into_iter[%s]" % ("HashSet" if "HashSet" in n else ("HashMap" if "HashMap" in n else "Vec")) if n.endswith("into_iter") else re.sub(r"^.*::", "", n)) for n, _ in stages]
     # expected shape (outermost → innermost)
     sig = [n for n in names]
